@@ -595,6 +595,37 @@ func verifH_C18_times() {
 	verifReach("end")
 }
 
+// named types whose name ends in Ref but that are not reference wrappers (not even structs)
+type verifColorRef string
+type verifCountRef int32
+type verifListRef []string
+type verifMapRef map[string]int32
+
+type verifNamedRefs struct {
+	C verifColorRef  `json:"c"`
+	N verifCountRef  `json:"n"`
+	L verifListRef   `json:"l"`
+	M verifMapRef    `json:"m"`
+	P *verifColorRef `json:"p"`
+}
+
+//verif:harness id=C18 tier=quick,thorough witness=end bounds="named non-struct types whose name ends in Ref (a string, an int32, a slice and a map type, and a pointer to the string type) as struct fields: generation succeeds without panic and the schema accepts the encoding (int32 symbolic, pointer nil or set)"
+func verifH_C18_named_ref_types() {
+	comps := openapi3.Schemas{}
+	ref, err := NewSchemaRefForValue(&verifNamedRefs{}, comps)
+	verifAssert(err == nil && ref != nil && ref.Value != nil, "C18 named Ref types: generation succeeds")
+	if err != nil || ref == nil || ref.Value == nil {
+		return
+	}
+	var p any
+	if verifChoose("set", 2) == 1 {
+		p = "blue"
+	}
+	enc := map[string]any{"c": "red", "n": float64(verifNondetInt32("n")), "l": []any{"a"}, "m": map[string]any{"k": float64(verifNondetInt32("m"))}, "p": p}
+	verifAssert(ref.Value.VisitJSON(enc) == nil, "C18 named Ref types: the generated schema accepts the encoding")
+	verifReach("end")
+}
+
 type verifThing struct {
 	N int32 `json:"n"`
 }
